@@ -475,9 +475,10 @@ func (s *Scanner) scanLineComment() token.Token {
 		s.readRune()
 	}
 
+	// blanks (and the CR of a CR LF line end) behind a line comment are layout, not part of the comment
 	return token.Token{
 		Type:     token.COMMENT,
-		Text:     string(s.data[position:s.position]),
+		Text:     strings.TrimRight(string(s.data[position:s.position]), " \t\r\f\v"),
 		Position: s.newPosition(position),
 	}
 }
